@@ -77,9 +77,14 @@ def bind(chk: Check, tier: str, seed: int):
             s = 1 + (n_msg % 2 if q0 % 2 else 0)            # odd counter states alternate two streams
             pgn, src, dst = fp.STREAMS[s]
             payload = fp.payload_of(s, n_msg % 250 + 1, L)
-            frames = [list(f) for f in enc._encode_fast_message(pgn, fp.PRIO, src, dst, payload)]
+            try:
+                frames = [list(f) for f in enc._encode_fast_message(pgn, fp.PRIO, src, dst, payload)]
+            except Exception:              # noqa: BLE001 - a length in 0..223 the framer refuses: no frames (TLC judges)
+                frames = []
             send_recs.append({"payload": list(payload), "frames": frames, "prevq": prevq})
             send_meta.append(f"framer/L={L}/q0={q0}")
+            if not frames:
+                continue
             prevq = frames[0][0] >> 5
             for f in frames:
                 seq, fc = f[0] >> 5, f[0] & 31
